@@ -145,6 +145,28 @@ func checkShared(c SharedCase) (v ev.Verdict) {
 			got := make([]string, n)
 			var wg sync.WaitGroup
 			start := make(chan struct{})
+			// meanwhile a host compiles other specifications (new
+			// versions, other machines' specs): that must not touch
+			// anything the walkers read
+			stopCompile := make(chan struct{})
+			var cwg sync.WaitGroup
+			cwg.Add(1)
+			go func() {
+				defer cwg.Done()
+				<-start
+				for i := 0; ; i++ {
+					select {
+					case <-stopCompile:
+						return
+					default:
+					}
+					other := stamped(c.Spec, fmt.Sprintf("other%d", i))
+					if i%2 == 0 {
+						other.NoAutoErrorNode = !other.NoAutoErrorNode
+					}
+					other.Compiled()
+				}
+			}()
 			for i := 0; i < n; i++ {
 				wg.Add(1)
 				go func(i int) {
@@ -155,6 +177,8 @@ func checkShared(c SharedCase) (v ev.Verdict) {
 			}
 			close(start)
 			wg.Wait()
+			close(stopCompile)
+			cwg.Wait()
 			for i := 0; i < n; i++ {
 				if got[i] != seq[i] {
 					v.Failf("machine %d walked concurrently with %d others against one spec:\n got   %s\n alone %s", i, n-1, ev.Trunc(got[i], 600), ev.Trunc(seq[i], 600))
